@@ -16,7 +16,10 @@ lagrange   `Material` + total_lagrange / updated_lagrange decorators (both back 
            objective material (S = S(F^T F) resp. sigma = F S(F^T F) F^T / J).
 model      every model function of {tensortrax,jax}/models/hyperelastic executed on symbolic C:
            isotropy psi(R_k^T C R_k) == psi(C); stress-free reference dpsi/dC(I) == 0; principal-stretch
-           models through the diagonal restriction (+ symmetry in (a,b,c)).
+           models through the diagonal restriction (+ symmetry in (a,b,c)).  Real exponents (ogden alpha,
+           lopez_pamies alpha, storakers alpha / beta, extended_tube beta, saint_venant_kirchhoff k) are
+           universally quantified symbols in the `*=real` configurations (power atoms of the ring kernel:
+           all real exponent values); the rational instantiations are kept (root-atom path).
 """
 import contextlib
 import itertools
@@ -46,7 +49,7 @@ from vk.symnp import det_ref
 
 TRUSTED = M.TRUSTED + [
     "C11: scipy.special.erf is the function atom erf (erf(0)=0, odd, erf' = 2/sqrt(pi) exp(-z^2)); np.maximum / np.isclose on symbolic values are decided by the branch oracle under the contract's `requires` (primary / unloading path of OgdenRoxburgh), exact equality for isclose",
-    "C11: models with real exponents (ogden alpha, lopez_pamies alpha, storakers alpha/beta, extended_tube beta, saint_venant_kirchhoff k, micro-sphere p/q) are proved at the listed rational exponent values, not for all exponents",
+    "C11: real exponents: ogden alpha_i, lopez_pamies alpha_r, storakers alpha_i / beta_i (both back ends), extended_tube beta (both back ends) and saint_venant_kirchhoff k (k != 2, k != 0: the code branches on k == 2 / k == 0, those two values are separate configurations) are universally quantified reals of the `*=real` configurations (power atoms pw = base**expo of the ring kernel, base > 0 logged, d pw = pw (expo d base / base + log(base) d expo), pw(1, e) = 1, pw(p, e + k) = pw(p, e) p^k, pw(root(p, n), e) = pw(p, e/n)); no assumption on the exponents except the denominators the executed code divides by (alpha_i != 0, beta_i != 0, k != 0: listed as side conditions).  The rational instantiations are kept as additional configurations (they exercise the root-atom path).  Still instantiated / not reached: saint_venant_kirchhoff_orthotropic k != 2 (eigh eigenvectors of a non-diagonal argument; no diagonal restriction for an anisotropic energy), micro-sphere p, q (21-point float sphere rule: the stress-free reference holds to table accuracy only; bounded native stand-in)",
     "C11: jax principal-stretch models (storakers, extended_tube) add a literal diag(0, +-1e-4) to C before eigvalsh: isotropy and the stress-free reference are proved for the real code object with that literal replaced by 0 (identity at perturbation 0); with the literal the reference stress is O(1e-4 * modulus)",
 ]
 
@@ -343,6 +346,8 @@ def model_params(vk, name, variant):
     p = lambda n, near=1.0: _par(vk, n, near)  # noqa: E731
     # exponents: exact constants of the ring (so that 3 ** (1 - alpha) is the exact power, A1), floats natively
     Q = (lambda *a: LP.const(Fr(*a))) if vk.sym else (lambda *a: float(Fr(*a)))  # noqa: E731
+    if "real" in variant:
+        return real_exponent_params(vk, name, variant)
     if name == "neo_hooke":
         return dict(mu=p("mu"))
     if name == "mooney_rivlin":
@@ -383,6 +388,35 @@ def model_params(vk, name, variant):
     raise KeyError(name)
 
 
+# sampling centres of the symbolic exponents (paired native run / replays only; the docstring examples)
+EXPO_NEAR = {"ogden": [1.7, -1.5, 3.0], "lopez_pamies": [1.08, 4.4, -1.2], "storakers": [2.0, -2.0, 1.3], "storakers.beta": [0.5, 0.25, 0.9]}
+
+
+def real_exponent_params(vk, name, variant):
+    """parameter sets whose exponents are universally quantified reals (ring variables; floats natively).
+    No `requires` on them: the docstrings state no sign condition; the denominators the code divides by
+    (alpha, beta, k) are logged as side conditions.  saint_venant_kirchhoff branches on `k == 2` / `k == 0`
+    (Green-Lagrange / Hencky strain): the symbolic configuration is the remaining case, stated as `requires`"""
+    p = lambda n, near=1.0: _par(vk, n, near)  # noqa: E731
+    ex = lambda n, near: vk.reals(n, (), near=near, spread=0.15)  # noqa: E731
+    n = int(variant.split("real(")[1].split(")")[0]) if "real(" in variant else 1
+    vk.note(f"{name}[{variant}]: the exponents are universally quantified reals (power atoms): proved for all real exponent values on the domain of the executed code")
+    if name in ("ogden", "lopez_pamies"):
+        return dict(mu=[p(f"mu{i}") for i in range(n)], alpha=[ex(f"alpha{i}", EXPO_NEAR[name][i]) for i in range(n)])
+    if name == "storakers":
+        return dict(mu=[p(f"mu{i}") for i in range(n)], alpha=[ex(f"alpha{i}", EXPO_NEAR[name][i]) for i in range(n)], beta=[ex(f"beta{i}", EXPO_NEAR["storakers.beta"][i]) for i in range(n)])
+    if name == "extended_tube":
+        return dict(Gc=p("Gc"), delta=vk.reals("delta", (), near=0.1, spread=0.05), Ge=p("Ge", 0.5), beta=ex("beta", 0.2))
+    if name == "saint_venant_kirchhoff":
+        k = ex("k", 1.0)
+        vk.requires(k - 2, "!=")  # `if k == 2` / `if k == 0` in the model code: the two excluded values are the
+        vk.requires(k, "!=")  # configurations k=2 and k=0
+        return dict(mu=p("mu"), lmbda=p("lmbda", 2.0), k=k)
+    if name == "miehe_goektepe_lulei":
+        return dict(mu=p("mu"), N=p("N", 20.0), U=p("U", 5.0), p=ex("p", 1.6), q=ex("q", 0.6))
+    raise KeyError(name)
+
+
 KIND = {
     "neo_hooke": "inv",
     "mooney_rivlin": "inv",
@@ -398,12 +432,13 @@ KIND = {
     "storakers": "eig",
     "extended_tube": "eig",
 }
+# `real`: the exponents are symbols (all real values); the rational instantiations exercise the root-atom path
 VARIANTS = {
-    "ogden": (["a=(3/2,-2)"], ["a=(2,-2)", "a=(1,4)", "a=(13/10,5,-2)", "a=(1/2,-1/3)"]),
-    "lopez_pamies": (["a=(1,4)"], ["a=(1,2)", "a=(3/2,-1/2)", "a=(1/3,3)"]),
-    "storakers": (["a=(2,-2),b=(1/2,1/4)"], ["a=(2),b=(1)", "a=(9/2,-9/2),b=(92/100,92/100)", "a=(3/2,4),b=(1/3,2)"]),
-    "extended_tube": (["b=1/2"], ["b=1", "b=1/5", "b=2", "b=3/4"]),
-    "saint_venant_kirchhoff": (["k=2", "k=1"], ["k=0", "k=-2", "k=3", "k=1/2"]),
+    "ogden": (["a=real(2)", "a=real(3)", "a=(3/2,-2)"], ["a=(2,-2)", "a=(1,4)", "a=(13/10,5,-2)", "a=(1/2,-1/3)"]),
+    "lopez_pamies": (["a=real(2)", "a=real(3)", "a=(1,4)"], ["a=(1,2)", "a=(3/2,-1/2)", "a=(1/3,3)"]),
+    "storakers": (["a=real(2),b=real(2)", "a=real(3),b=real(3)", "a=(2,-2),b=(1/2,1/4)"], ["a=(2),b=(1)", "a=(9/2,-9/2),b=(92/100,92/100)", "a=(3/2,4),b=(1/3,2)"]),
+    "extended_tube": (["b=real", "b=1/2"], ["b=1", "b=1/5", "b=2", "b=3/4"]),
+    "saint_venant_kirchhoff": (["k=real", "k=2", "k=0", "k=1"], ["k=-2", "k=3", "k=1/2"]),
 }
 JAX_PERTURBED = {"storakers": 1e-4, "extended_tube": 1e-4}  # literal diag(0, +-1e-4) added to C before eigvalsh
 
